@@ -567,10 +567,10 @@ theorem function_wrong_length_sigma_refused :
 
 /-- `fixed` with more requested landmarks than cells keeps the `n` cells as landmarks; handing these landmarks back
     together with the same request (what every repeated `fit` of such a model does, and what a fresh model given the
-    fitted model's landmarks does) is accepted and resolves exactly as the first fit. -/
+    fitted model's landmarks — the cells, `lmCells` — does) is accepted and resolves exactly as the first fit. -/
 theorem fixed_overrequest_refit (c : Config) (hl : c.landmarks = none) (r : Resolved)
     (hp : prepare c = .ok r) (hg : r.gp = .fixed) (hn : c.n < r.nl) (hnl : c.nLandmarks = some (r.nl : Int)) :
-    prepare { c with landmarks := some c.n } = .ok r := by
+    prepare { c with landmarks := some c.n, lmCells := true } = .ok r := by
   obtain ⟨nlU, rkU, gpU, h1, h2, h3, h4, h5, h6, hv⟩ := prepare_ok hp
   have hnlU : nlU = some r.nl := by
     rw [hnl] at h1
@@ -589,11 +589,19 @@ theorem fixed_overrequest_refit (c : Config) (hl : c.landmarks = none) (r : Reso
     rw [validateParams_ok] at hv ⊢
     refine ⟨fun m hm => Or.inr ⟨hg, (Option.some.inj hm).symm, hn⟩, hv.2⟩
   rw [hv']
+  simp
+
+/-- … but only the cells themselves: `n` other landmark rows next to a larger request are a contradiction like any other. -/
+theorem fixed_overrequest_foreign_landmarks_refused :
+    resolve {
+      est := .density, n := 12, nLandmarks := some 13, landmarks := some 12, rank := .none,
+      gpType := .str ['f','i','x','e','d'], withUnc := false, opt := .lbfgsb, kept := 12, sigma := .scalar, lmCells := false }
+      = .refused .landmarkCount := by decide
 
 example :
     resolve {
       est := .density, n := 12, nLandmarks := some 13, landmarks := some 12, rank := .none,
-      gpType := .str ['f','i','x','e','d'], withUnc := false, opt := .lbfgsb, kept := 12, sigma := .scalar }
+      gpType := .str ['f','i','x','e','d'], withUnc := false, opt := .lbfgsb, kept := 12, sigma := .scalar, lmCells := true }
       = .ok .fixed 12 12 .landmarksCholesky ∧
     resolve {
       est := .density, n := 12, nLandmarks := some 13, landmarks := some 11, rank := .none,
